@@ -47,7 +47,13 @@ def info(binary, tier):
     if not m:
         raise RuntimeError("fsim info failed: " + r.stdout[-2000:])
     schemas = re.findall(r"^SCHEMA (\S+) points=(\d+) trace_len=(\d+) files=(\d+)", r.stdout, re.M)
+    global CRASHPOINTS
+    mc = re.search(r"^CRASHPOINTS (\d+)", r.stdout, re.M)
+    CRASHPOINTS = int(mc.group(1)) if mc else 0
     return int(m.group(1)), schemas
+
+
+CRASHPOINTS = 0
 
 
 def fault_summary(counters):
@@ -64,7 +70,7 @@ def run_c20(tier, args):
     nexplore = 3000 if tier == "quick" else 60000
     base = first_run_seed() - 1  # low 32 bits 0: indices 1..nenum are the enumeration
     b = run_batch(binary, "C20", tier, base + 1, nenum + nexplore, out)
-    log("[C20] %d enumerated single-fault runs + %d explored histories in %.1fs, %d violating" % (nenum, nexplore, b.wall, len(b.violations)))
+    log("[C20] %d enumerated single-fault runs + %d enumerated crash points + %d explored histories in %.1fs, %d violating" % (nenum - CRASHPOINTS, CRASHPOINTS, nexplore, b.wall, len(b.violations)))
     nviol, herr = gate_and_report("C20", binary, b, out, tier=tier)
     nviol += regbad
     total = b
@@ -80,9 +86,12 @@ def run_c20(tier, args):
     cov = dict(
         evaluations=total.runs,
         distinct_nontrivial=len(total.tuples),
-        rule="plans 1..N enumerate every single fault of the fault-free call trace of each tier schema: (call kind, ordinal among calls of that kind, outcome) for mkdir/open-for-write/write+writev/close/open-for-read/read/stat (stat faults are soft); further plans are seeded histories of 1-4 sbeppc runs on one simulated directory with 0-3 faults per run, yanked disk, disk-full-after-B-bytes, persistent environment conditions on the output root (every call incl. stat fails with EACCES/ENAMETOOLONG/ELOOP/EIO), pre-populated output directories (longer/torn/stale/identical/same-size/read-only files, files where directories go and the reverse, symlinked leaf directories; modification times before / with / after the schema's, now, or in the future), a simulated wall clock moved between runs, heap-layout perturbation, and crash-and-restart: an invocation dies at a seeded call of its trace - process kill (what reached write() stays) or power loss (nothing was synced: per file the new bytes, a prefix, nothing, a zero tail, the old content or no file; empty new directories may vanish) - and the restart on that directory must exit 0 with every file complete and byte-identical to the reference. distinct = distinct (schema, call kind#ordinal, outcome) fault points that actually fired",
+        rule="plans 1..N enumerate every single fault of the fault-free call trace of each tier schema: (call kind, ordinal among calls of that kind, outcome) for mkdir/open-for-write/write+writev/close/open-for-read/read/stat (stat faults are soft), and every crash point: the invocation dies at call k for every k of its trace, as a process kill and as a power loss under three seeds of what survives, followed by the restart of the same command, which is judged in full; further plans are seeded histories of 1-4 sbeppc runs on one simulated directory with 0-3 faults per run, yanked disk, disk-full-after-B-bytes, persistent environment conditions on the output root (every call incl. stat fails with EACCES/ENAMETOOLONG/ELOOP/EIO), pre-populated output directories (longer/torn/stale/identical/same-size/read-only files, files where directories go and the reverse, symlinked leaf directories; modification times before / with / after the schema's, now, or in the future), a simulated wall clock moved between runs, heap-layout perturbation, and crash-and-restart: an invocation dies at a seeded call of its trace - process kill (what reached write() stays) or power loss (nothing was synced: per file the new bytes, a prefix, nothing, a zero tail, the old content or no file; empty new directories may vanish) - and the restart on that directory must exit 0 with every file complete and byte-identical to the reference. distinct = distinct (schema, call kind#ordinal, outcome) fault points that actually fired",
         exhaustive_single_fault_enumeration=True,
         enumerated_points=nenum,
+        enumerated_single_faults=nenum - CRASHPOINTS,
+        enumerated_crash_points=CRASHPOINTS,
+        exhaustive_crash_point_enumeration=True,
         explored_histories=nexplore,
         schemas=[dict(name=s[0], fault_points=int(s[1]), trace_len=int(s[2]), files=int(s[3])) for s in schemas],
         samples=total.samples[:4],
